@@ -218,3 +218,50 @@ def _same(x, y):
     if not isinstance(x, SV) and not isinstance(y, SV):
         return x == y
     return O.eq(x, y, 0.0)
+
+
+class HSobolSeed(Harness):
+    """init_sobol's scrambling seed for concrete starting points (the arithmetic is string / uint64 manipulation, so the
+    points are concrete): the seed must be a function of the starting point alone.  params: D, scale"""
+    name = "H-BC/sobolseed"
+    import importlib as _il
+    _ismod = _il.import_module("pybads.init_functions.init_sobol")
+    functions = (_ismod.init_sobol,)
+    stubs_doc = ("scipy.stats.qmc.Sobol: records the seed it is constructed with", "builtin hash / id / time / os.urandom inside pybads code: "
+                 "recorded as a process-dependent source (str/bytes hashes are salted per interpreter)")
+
+    def case(self, eng):
+        import importlib
+        ismod = importlib.import_module("pybads.init_functions.init_sobol")
+        p = self.p
+        D, scale = p["D"], p.get("scale", 1.0)
+        seeds, tainted = [], []
+
+        class SobolStub:
+            def __init__(s, d, seed=None, **k):
+                seeds.append(seed)
+                s.d = d
+
+            def random_base2(s, m):
+                return np.zeros((2 ** m, s.d))
+
+        def hash_shim(obj):
+            if isinstance(obj, (str, bytes, bytearray, memoryview)):
+                tainted.append("hash(%s)" % type(obj).__name__)
+                return 1234567
+            return hash(obj)
+        eng.rng = RngStub(eng)
+        st = {"pybads.init_functions.init_sobol": dict(Sobol=SobolStub, hash=hash_shim, id=lambda o: tainted.append("id") or 1)}
+        rb = Rebinder(eng.concrete, stubs=stubs(**st))
+        f = rb.func(ismod.init_sobol)
+        u0 = (np.arange(1, D + 1, dtype=float) * scale * (-1.0) ** np.arange(D))
+        lb, ub = np.full((1, D), -1e3), np.full((1, D), 1e3)
+        plb, pub = np.full((1, D), -1.0), np.full((1, D), 1.0)
+        out = Out()
+        r1 = f(u0.copy(), lb, ub, plb, pub, max(D, 2))
+        r2 = f(u0.copy(), lb, ub, plb, pub, max(D, 2))
+        out.tag = dict(seeds=[int(s) if s is not None else None for s in seeds])
+        out.ob("sobol_seed_is_a_function_of_the_start_point", len(seeds) == 2 and seeds[0] == seeds[1] and seeds[0] is not None and 1 <= int(seeds[0]) <= 998)
+        out.ob("no_process_dependent_source_in_seed", not tainted)
+        out.ob("no_global_rng_draw_for_a_finite_start_point", not eng.rng.draws)
+        return out
